@@ -1,2 +1,126 @@
+(* C15 - fetch_or_create_by_xpath finds or adds, and nothing else.   Statements only.
+
+   foc        XPath/FetchCreate.v   model of fetch_or_create_by_xpath / _create_by_xpath / _is_unambiguously_locatable /
+                                    _derived_attributes as they are at /repo HEAD (after the fix commits 0ffad18, b721705,
+                                    f228380); tied on every run by harness/props/c15.py: outcome and the complete tree
+                                    afterwards on trees x paths x namespaces
+   eval       XPath/Eval.v          the evaluator mirror of C06
+   vis        the caller's ambient default filter (append_children adds after the last visible child): all theorems
+              hold for every vis
+   m          ONE mapping for query and creation: `namespaces` is None or a non-empty mapping (an empty mapping makes
+              the code use two different ones: open finding, C15_empty_mapping_refuted)
+
+   The domain (decidable, FetchCreateFacts.step_good): every step is child::name-test with attribute = 'literal'
+   predicates joined by `and` / stacked, every prefix declared and not empty, the required attribute values
+   non-contradictory (each is still there after all have been set).  The context node is a tag node of the tree
+   (position 0 :: q).  No default-namespace guard, no matching-root guard, no guard on the tree. *)
 From Delb.Base Require Import PyStr.
-From Delb.XPath Require Import Ast Nav Eval FetchCreate Run.
+From Delb.Tree Require Import ATree ITree.
+From Delb.XPath Require Import Ast Nav Eval LocPath FetchCreate FetchCreateFacts C15Witness.
+
+(* after a successful call the same expression selects exactly the returned node *)
+Theorem C15_finds : forall vis root m ab ss q t0 t' p,
+  forallb (step_good m) ss = true -> ss <> [] -> subtree root q = Some t0 -> is_tag_t t0 = true ->
+  foc vis root m m [LocationPath ab ss] (0 :: q) = FocOk t' p ->
+  exists n, eval (docnode t') m [LocationPath ab ss] (ctx_nd t' (0 :: q)) = Ok [n] /\ fst n = p.
+Proof.
+  intros vis root m ab ss q t0 t' p G Hne Hs Ht H. destruct ab.
+  - destruct ss as [|s r]; [congruence|]. eapply foc_finds_absolute; eauto.
+  - eapply foc_finds_relative; eauto.
+Qed.
+Print Assumptions C15_finds.
+
+(* calling it again returns the same node and changes nothing *)
+Theorem C15_idem : forall vis root m ab ss q t0 t' p,
+  forallb (step_good m) ss = true -> ss <> [] -> subtree root q = Some t0 -> is_tag_t t0 = true ->
+  foc vis root m m [LocationPath ab ss] (0 :: q) = FocOk t' p ->
+  foc vis t' m m [LocationPath ab ss] (0 :: q) = FocOk t' p.
+Proof.
+  intros vis root m ab ss q t0 t' p G Hne Hs Ht H.
+  destruct (C15_finds vis root m ab ss q t0 t' p G Hne Hs Ht H) as (n & He & <-).
+  apply foc_idem; [|exact He].
+  destruct (locatable [LocationPath ab ss]) eqn:L; [reflexivity|].
+  rewrite (foc_not_accepted vis root m m _ (0 :: q) L) in H. discriminate H.
+Qed.
+Print Assumptions C15_idem.
+
+(* what is added is one chain of new elements, inserted as a child (after the last visible one) somewhere below the
+   start node; everything that existed keeps its place, content and attributes (`grown`, FetchCreateFacts.v).  That
+   the chain hangs below the deepest existing match and is named and attributed as the steps say is C15_finds: the
+   expression selects its last element through it. *)
+Theorem C15_minimal : forall vis root m ab ss q t0 t' p,
+  forallb (step_good m) ss = true -> subtree root q = Some t0 -> is_tag_t t0 = true ->
+  foc vis root m m [LocationPath ab ss] (0 :: q) = FocOk t' p ->
+  t' = root \/ (ab = false /\ exists t0', grown t0 t0' /\ t' = replace_at root q t0') \/ (ab = true /\ grown root t').
+Proof. exact foc_minimal. Qed.
+Print Assumptions C15_minimal.
+
+(* every exception leaves the tree unchanged *)
+Theorem C15_fault_unchanged : forall vis root m ab ss q t0 t' f,
+  forallb (step_good m) ss = true -> subtree root q = Some t0 ->
+  foc vis root m m [LocationPath ab ss] (0 :: q) = FocFault t' f -> t' = root.
+Proof. exact foc_fault_unchanged. Qed.
+Print Assumptions C15_fault_unchanged.
+
+(* the refusals *)
+Theorem C15_reject_not_accepted : forall vis root me mc e ctx,
+  locatable e = false -> foc vis root me mc e ctx = FocFault root (FRejected ValueError).
+Proof. exact foc_not_accepted. Qed.
+Print Assumptions C15_reject_not_accepted.
+Theorem C15_reject_ambiguous : forall vis root me mc e ctx x y l,
+  locatable e = true -> eval (docnode root) me e (ctx_nd root ctx) = Ok (x :: y :: l) ->
+  foc vis root me mc e ctx = FocFault root (FRejected AmbiguousTreeError).
+Proof. exact foc_ambiguous. Qed.
+Print Assumptions C15_reject_ambiguous.
+Theorem C15_accepted_shape : forall e, locatable e = true ->
+  exists ab ss, e = [LocationPath ab ss] /\
+    Forall (fun s => exists p l ps, s = LocationStep AxChild (NameMatchTest p l) ps /\ forallb loc_expr ps = true) ss.
+Proof. exact locatable_shape. Qed.
+(* after a creation no exception is possible any more (every later step creates) *)
+Theorem C15_no_fault_after_creation : forall vis m r pos n, forallb (step_good m) r = true -> tkids n = [] -> pos <> [] ->
+  exists n' p, create_in vis m r pos n = COk n' p.
+Proof. exact chain_no_fault. Qed.
+Print Assumptions C15_no_fault_after_creation.
+
+(* ---- the hypotheses are satisfiable; the model's result is the tree the implementation leaves behind *)
+Example C15_example :
+  forallb (step_good f_ex_me) (path_steps (hd (LocationPath false []) f_ex_expr)) = true /\
+  exists t', foc default_vis f_ex_tree f_ex_me f_ex_mc f_ex_expr [0%nat] = FocOk t' f_ex_pos /\
+             content t' = content f_ex_after.
+Proof. split; [vm_compute; reflexivity|]. eexists. split; vm_compute; reflexivity. Qed.
+
+(* ---- regression examples for the findings repaired in /repo (0ffad18, b721705, f228380) *)
+(* default namespace in effect: a[@k='1']/b on <r xmlns="d"/> is created IN the default namespace, with a plain k *)
+Example C15_default_namespace_fixed :
+  forallb (step_good f_dns_me) (path_steps (hd (LocationPath false []) f_dns_expr)) = true /\
+  exists t', foc default_vis f_dns_tree f_dns_me f_dns_mc f_dns_expr [0%nat] = FocOk t' f_dns_pos /\
+             content t' = content f_dns_after /\
+             foc default_vis t' f_dns_me f_dns_mc f_dns_expr [0%nat] = FocOk t' f_dns_pos.
+Proof. split; [vm_compute; reflexivity|]. eexists. split; [vm_compute; reflexivity|]. split; vm_compute; reflexivity. Qed.
+Example C15_absolute_mismatch_fixed :
+  foc default_vis f_abs_tree f_abs_me f_abs_mc f_abs_expr [0%nat] = FocFault f_abs_tree (FRejected InvalidOperation).
+Proof. vm_compute. reflexivity. Qed.
+Example C15_undeclared_prefix_fixed :
+  foc default_vis f_pfx_tree f_pfx_me f_pfx_mc f_pfx_expr [0%nat] = FocFault f_pfx_tree (FRejected XPathEvaluationError).
+Proof. vm_compute. reflexivity. Qed.
+Example C15_ambiguous_example :
+  foc default_vis f_amb_tree f_amb_me f_amb_mc f_amb_expr [0%nat] = FocFault f_amb_tree (FRejected AmbiguousTreeError).
+Proof. vm_compute. reflexivity. Qed.
+Example C15_not_accepted_example :
+  foc default_vis f_bad_tree f_bad_me f_bad_mc f_bad_expr [0%nat] = FocFault f_bad_tree (FRejected ValueError).
+Proof. vm_compute. reflexivity. Qed.
+
+(* ---- refutations outside the domain (open findings, findings.d/C15.json) *)
+(* an undeclared prefix in a LATER step: b is created and appended before the prefix of p:a is checked *)
+Theorem C15_fault_unchanged_refuted :
+  forallb (step_good f_late_me) (path_steps (hd (LocationPath false []) f_late_expr)) = false /\
+  exists t', foc default_vis f_late_tree f_late_me f_late_mc f_late_expr [0%nat] = FocFault t' (FRejected XPathEvaluationError) /\
+             content t' = content f_late_after /\ content t' <> content f_late_tree.
+Proof. split; [vm_compute; reflexivity|]. eexists. split; [vm_compute; reflexivity|]. split; [vm_compute; reflexivity|].
+  vm_compute. discriminate. Qed.
+(* namespaces = {}: the query uses the empty mapping, creation {"": self.namespace}: the {d}a that exists is returned
+   although the expression (un-prefixed = no namespace under the empty mapping) does not select it *)
+Theorem C15_empty_mapping_refuted : f_empty_me <> f_empty_mc /\
+  exists t' p, foc default_vis f_empty_tree f_empty_me f_empty_mc f_empty_expr [0%nat] = FocOk t' p /\
+               eval (docnode t') f_empty_me f_empty_expr (ctx_nd t' [0%nat]) = Ok [].
+Proof. split; [vm_compute; discriminate|]. eexists _, _. split; vm_compute; reflexivity. Qed.
